@@ -27,7 +27,12 @@ def main(families):
     for fam in families:
         cfgname = "MC_%s_pinned" % fam
         r = run_tlc("MCSolver", cfgname, timeout=3000, env={"JAVA_TOOL_OPTIONS": "-XX:+UseParallelGC -Xmx12g"})
-        prop = [p for p, f in cs.FAMILY.items() if f == fam][0]
+        props = [p for p, f in cs.FAMILY.items() if f == fam]
+        if props:
+            prop, replay = props[0], cs.REPLAYS[props[0]]
+        else:  # an extra family of a property (e.g. Mirror under C07)
+            prop = [p for p, fl in cs.EXTRA_FAMILIES.items() if any(f == fam for f, _ in fl)][0]
+            replay = cs.REPLAYS_BY_FAMILY[fam]
         agree = disagree = 0
         fails_model = fails_code = 0
         for c in r.emitted:
@@ -40,7 +45,7 @@ def main(families):
             pred_ok = ok
             if ok and c["err"] == "none" and list(c["shape"][1:]) == [c["ny"], c["nx"]]:
                 try:
-                    cs.REPLAYS[prop](chk, rs, c, cs.VARIANTS_QUICK)
+                    replay(chk, rs, c, cs.VARIANTS_QUICK)
                 except Exception as e:
                     chk.violations.append({"what": "exception %r" % e})
             elif ok and c["err"] == "none":
